@@ -253,6 +253,14 @@ def check_poly(case) -> Outcome:
     if P.shape != (n, deg):
         out.fail("poly-shape", f"{P.shape}", **feat)
         return out
+    # the storage type of the input does not matter: the same values held as float32 give the same basis as those
+    # values held as float64 (computation in double precision)
+    x32 = x.astype(np.float32)
+    if len(np.unique(x32)) > deg and ratio <= 100:
+        P32 = np.asarray(poly(x32, degree=deg, _state={}), dtype=float)
+        P64 = np.asarray(poly(x32.astype(np.float64), degree=deg, _state={}), dtype=float)
+        if P32.shape != P64.shape or not np.allclose(P32, P64, rtol=0, atol=1e-10):
+            out.fail("poly-input-dtype", f"poly(degree={deg}) on {case['x']} held as float32 differs from the same values as float64 by {np.abs(P32 - P64).max() if P32.shape == P64.shape else 'shape'}", **feat)
     G = P.T @ P
     if not np.allclose(G, np.eye(deg), atol=otol):
         out.fail("poly-orthonormal", f"poly(degree={deg}) on {case['x']}: Gram deviates by {np.abs(G - np.eye(deg)).max()}", **feat)
